@@ -89,6 +89,7 @@ func runSchedJob(c *Ctl, job *Job, idx int, res *RunResult) {
 		// a third of the worlds: a stage goroutine whose task just returned may be held before one
 		// of its next statements while scheduling passes go on (e.g. between its two status stores)
 		prof.PreemptPct, prof.PreemptDepth = 25, 12
+		prof.WMidpass = 9 // more passes suspended in the middle (and a few statements into a visit)
 	}
 	if world >= len(dagShapes)*2 && world%16 == 11 {
 		// one pipeline scheduled by two loops: what one loop sees of a stage that is just finishing
